@@ -296,10 +296,28 @@ let sout_s = function
   | SIo e -> "io:" ^ iokind_s e | SPanic -> "panic" | SHang -> "hang" | SPending -> "pending"
 let wev_s = function
   | EvW n -> "w" ^ num_s n | EvWZ -> "wz" | EvWE -> "we" | EvWP -> "wp" | EvFO -> "fo" | EvFP -> "fp" | EvFE -> "fe"
-let inits_of parts = List.map (fun s -> let (sx, _) = parse_sexp (tokenize s) in init_of sx) parts
+(* a message of a send case: an emplacer expression, optionally followed by `~ <op>`: an in-place operation
+   applied through the send guard (DerefMut) after the message was constructed and before it is sent *)
+let msg_of s =
+  match String.index_opt s '~' with
+  | None -> let (sx, _) = parse_sexp (tokenize s) in (init_of sx, None)
+  | Some k ->
+    let (sx, _) = parse_sexp (tokenize (String.sub s 0 k)) in
+    let (ox, _) = parse_sexp (tokenize (String.sub s (k + 1) (String.length s - k - 1))) in
+    (init_of sx, Some ox)
+let inits_of parts = List.map msg_of parts
 let vf t = fun a bs -> validate t a (clean bs)
 let sf t = fun bs -> size_m t (clean bs)
-let ef t = fun i a buf -> emplace pv t i a buf
+let ef t = fun (i, edit) a buf ->
+  let (b, r) = emplace pv t i a buf in
+  match r, edit with
+  | Ok (), Some ox ->
+    let (nb, _) = (match tail_container t (clean b) with
+        | Some (_, TFlex (_, _)) -> nested_flex_op pv t a (fop_of ox) b
+        | Some _ -> nested_vec_op pv t (vop_of ox) b
+        | None -> (b, OBad)) in
+    (nb, Ok ())
+  | _ -> (b, r)
 let unspecified = n_of_int 256
 let io_op t kind args =
   let nlen l = List.length l in
@@ -349,7 +367,7 @@ let io_op t kind args =
             | _ -> failwith "schedule") in
     (* total bytes: sizes of the inits whose emplacement succeeds in the sender's buffer *)
     let total = List.fold_left (fun acc i ->
-        let (buf, r) = emplace pv t i N0 (List.init (int_of_n capn) (fun _ -> unspecified)) in
+        let (buf, r) = ef t i N0 (List.init (int_of_n capn) (fun _ -> unspecified)) in
         match r with Ok () -> (match size_m t (clean buf) with Ok n -> acc + int_of_n n | _ -> acc) | _ -> acc) 0 inits in
     let budget = 4 * (total + nlen inits) + 64 in
     let fuel = nat_of_int (4 * (total + int_of_n capn) + 8 * nlen inits + 64) in
